@@ -56,7 +56,7 @@ func randEncOpts(r *plan.Rng) []string {
 		o = append(o, []string{"color_default", "color_empty", "color_custom"}[r.Intn(3)])
 	}
 	if r.Chance(1, 10) {
-		o = append(o, []string{"debug", "debugdot"}[r.Intn(2)])
+		o = append(o, []string{"debug", "debugdot", "dotonly", "dbgonly", "debug"}[r.Intn(5)])
 	}
 	if r.Chance(1, 4) {
 		o = append(o, "ptr")
